@@ -982,6 +982,18 @@ pub fn tree_spec_for(prop: &str) -> TreeSpec {
             time_ops: false,
             preds: vec!["failed-unchanged"],
         },
+        "C02" => TreeSpec {
+            prop: prop.into(),
+            configs: vec!["mem", "phys"],
+            corr_level: 1,
+            spec_results: true,
+            spec_snapshots: true,
+            wrong_type_calls: true,
+            root_calls: false,
+            composite_ops: true,
+            time_ops: false,
+            preds: vec!["failed-unchanged"],
+        },
         "C03" => TreeSpec {
             prop: prop.into(),
             configs: all_cfgs,
@@ -1090,7 +1102,67 @@ pub fn run(o: &Opts) -> Report {
     let mut world = RWorld::new(&o.scratch);
     let (n_runs, n_ops) = if o.thorough() { (60, 60) } else { (10, 30) };
     let mut runs: Vec<Run> = vec![];
+    if prop == "C02" {
+        // lock-step: the SAME operation sequence on the real MemoryFS and the real PhysicalFS;
+        // direct differential, no model involved in this oracle
+        let pairs = if o.thorough() { 120 } else { 20 };
+        for r in 0..pairs {
+            let cfg_m = build_cfg("mem", &mut rng);
+            let run_m = run_impl(&mut world, cfg_m, &ts, &mut rng, n_ops, None);
+            let cfg_p = build_cfg("phys", &mut rng);
+            let run_p = run_impl(&mut world, cfg_p, &ts, &mut rng, n_ops, Some(run_m.ops.clone()));
+            // compare the two implementations line by line (same script shape)
+            let mut step_ops = run_m.ops.iter();
+            let mut cur: Option<&Op> = None;
+            for (i, l) in run_m.lines.iter().enumerate() {
+                if l.who == Who::Model || l.step == usize::MAX {
+                    continue;
+                }
+                if l.role == "op" {
+                    cur = step_ops.next();
+                }
+                let a = run_m.impl_out[i].as_ref().unwrap();
+                let b = run_p.impl_out[i].as_ref().unwrap();
+                rep.evaluations += 1;
+                let opname = cur.map(|o| o.name).unwrap_or("init");
+                let desc = cur.map(|o| o.describe()).unwrap_or_default();
+                let differs = match l.role {
+                    "op" => {
+                        let (pa, pb) = (project(a, 0), project(b, 0));
+                        let okd = pa.starts_with("err") != pb.starts_with("err");
+                        // not-found / already-exists classes must agree when either side names one
+                        // for a target whose parent is a directory (checked by the reference-tree
+                        // oracle); here: whenever BOTH fail with a named class they must be equal
+                        let (ca, cb) = (project(a, 1), project(b, 1));
+                        let named = |c: &str| NAMED_CLASSES.iter().any(|n| c.ends_with(n));
+                        okd || (named(&ca) && named(&cb) && ca != cb) || (!pa.starts_with("err") && cur.map(|o| o.is_observer()).unwrap_or(false) && opname != "walk" && a != b)
+                    }
+                    "snap" => a != b,
+                    _ => false,
+                };
+                if differs {
+                    rep.fail(Fail {
+                        oracle: "prop".into(),
+                        signature: format!("mem-vs-phys:{}:{}", opname, l.role),
+                        what: format!("history {} step {} {}: MemoryFS {} / PhysicalFS {}", r, l.step, desc, if l.role == "snap" { first_diff(a, b) } else { a.clone() }, if l.role == "snap" { String::new() } else { b.clone() }),
+                        script: run_m.lines[..=i].iter().filter(|x| x.who != Who::Model).map(|x| format!("I {}", x.text)).collect(),
+                        impl_out: a.clone(),
+                        model_out: b.clone(),
+                    });
+                    break;
+                }
+            }
+            if r == 0 {
+                rep.sample(format!("[mem|phys lock-step] {}", run_m.ops.iter().take(10).map(|o| o.describe()).collect::<Vec<_>>().join("; ")));
+            }
+            runs.push(run_m);
+            runs.push(run_p);
+        }
+    }
     for cfg_kind in &ts.configs {
+        if prop == "C02" {
+            break;
+        }
         let phys = cfg_kind.contains("phys");
         let reps = if phys { (n_runs / 3).max(3) } else { n_runs };
         for r in 0..reps {
